@@ -6,7 +6,10 @@ import (
 	vrt "github.com/cocosip/go-dicom-codecs/internal/zzvrt"
 )
 
-func init() { vrt.Register("VerifC14RegularVsRef", VerifC14RegularVsRef) }
+func init() {
+	vrt.Register("VerifC14RegularVsRef", VerifC14RegularVsRef)
+	vrt.Register("VerifC14Params", VerifC14Params)
+}
 
 // refRegular is a transcription of ITU-T T.87 A.4.2 - A.6.2 for one
 // regular-mode sample (NEAR = 0): edge-detecting predictor, bias correction,
@@ -159,4 +162,58 @@ func VerifC14RegularVsRef() {
 	ec := enc.contextTable.contexts[idx]
 	vrt.Assert(ec.A == nA && ec.N == nN, "C14 A and N update equals T.87 A.6.1")
 	vrt.Assert(ec.B == nB && ec.C == nC, "C14 B and C update equals T.87 A.6.1/A.6.2")
+}
+
+// refClamp / refThresholds: T.87 C.2.4.1.1.1 (default threshold values).
+func refClamp(i, j, maxVal int) int {
+	if i > maxVal || i < j {
+		return j
+	}
+	return i
+}
+
+func refThresholds(maxVal, near int) (int, int, int) {
+	if maxVal >= 128 {
+		f := (min(maxVal, 4095) + 128) >> 8
+		t1 := refClamp(f*(3-2)+2+3*near, near+1, maxVal)
+		t2 := refClamp(f*(7-3)+3+5*near, t1, maxVal)
+		t3 := refClamp(f*(21-4)+4+7*near, t2, maxVal)
+		return t1, t2, t3
+	}
+	f := 256 / (maxVal + 1)
+	t1 := refClamp(max(2, 3/f+3*near), near+1, maxVal)
+	t2 := refClamp(max(3, 7/f+5*near), t1, maxVal)
+	t3 := refClamp(max(4, 21/f+7*near), t2, maxVal)
+	return t1, t2, t3
+}
+
+// VerifC14Params: default coding parameters for every precision and every
+// NEAR in 0..min(255, MAXVAL/2) (one symbolic variable): T1, T2, T3 equal
+// T.87 C.2.4.1.1.1, RANGE/qbpp/bpp/LIMIT equal A.2.1.
+func VerifC14Params() {
+	P := vrt.Choice("P", 2, 16)
+	maxVal := 1<<uint(P) - 1
+	top := maxVal / 2
+	if top > 255 {
+		top = 255
+	}
+	near := vrt.Int("near", 0, top)
+	p := ComputeCodingParameters(maxVal, near, 64)
+	t1, t2, t3 := refThresholds(maxVal, near)
+	vrt.Assert(p.T1 == t1 && p.T2 == t2 && p.T3 == t3, "C14 default thresholds T1,T2,T3 equal T.87 C.2.4.1.1.1")
+	rangeV := (maxVal+2*near)/(2*near+1) + 1
+	vrt.Assert(p.Range == rangeV, "C14 RANGE equals T.87 A.2.1")
+	qbpp, bpp := 0, 0
+	for (1 << uint(qbpp)) < rangeV {
+		qbpp++
+	}
+	for (1 << uint(bpp)) < maxVal+1 {
+		bpp++
+	}
+	if bpp < 2 {
+		bpp = 2
+	}
+	vrt.Assert(p.Qbpp == qbpp, "C14 qbpp equals ceil(log2 RANGE)")
+	vrt.Assert(p.Limit == 2*(bpp+max(8, bpp)), "C14 LIMIT equals 2*(bpp + max(8, bpp))")
+	vrt.Out("t1", p.T1)
 }
